@@ -217,7 +217,8 @@ impl UnitRunner for C08 {
 impl Check for C08 {
   fn id(&self) -> &'static str { "C08" }
   fn level(&self) -> &'static str { "exploration" }
-  fn unit_budget(&self, _t: Tier) -> Duration { Duration::from_secs(120) }
+  // a unit may hold the 76 KB specification document: leave room for a loaded machine
+  fn unit_budget(&self, t: Tier) -> Duration { Duration::from_secs(t.pick(240, 900)) }
   fn drive(&mut self, _tier: Tier, cfg: &PoolCfg, rep: &mut Report) {
     let n = self.ps.len() as u64;
     rep.rule = format!("{} programs from a template grammar with one production per syntactic form: every literal form, matrix literals of every shape up to 3x3 with five element forms, sets / tuples / records / maps / tables / comprehensions, every binary operator alone, chained and with either parenthesisation, mixed-level chains and nested parentheses, unary operators, ranges, every subscript form for reads and assignments, every statement form, calls, function / enum / kind / match / state-machine definitions, statement separators and comments, every Mechdown element, all two-level templates (16 statement forms x 22 expression forms), and the programs of the other checks; \
